@@ -17,6 +17,9 @@ CLAIMED = {
  "C13": ("stateful/model-based: generated call histories (compile/clone/drop/search through four input routes) against a pure-table model + reference evaluation", "4/C13"),
  "C14": ("differential against serde_json::to_value/from_value over generated values of derive-d types covering the serde data model, incl. cross-type decoding", "4/C14"),
  "C15": ("stateful/model-based: generated register/deregister histories against a map model with recording custom functions", "4/C15"),
+ "C16": ("compile-time Send/Sync obligations (reported as a fact) + generated concurrent workloads vs. sequential results, fresh-process first-use races; thorough adds ThreadSanitizer", "4/C16"),
+ "C17": ("differential across build configurations: one driver built under four feature sets answers the same generated cases; specialised vs generic conversion inside each build", "4/C17"),
+ "C18": ("differential end to end: generated jp process invocations vs. the library called in-process", "4/C18"),
  "C11": ("metamorphic/self-consistency: compound expression vs. its separately evaluated parts, implementation only", "4/C11"),
 }
 NOT_YET = "check not built yet in this revision (work in progress; DESIGN.md section 4 has the plan)"
